@@ -9,8 +9,9 @@ import deny
 
 DISCARDERS = {
     "std::result::Result::<T, E>::ok": "ok()",
-    "std::result::Result::<T, E>::is_ok": "is_ok()",
-    "std::result::Result::<T, E>::is_err": "is_err()",
+    # only the verdict is kept; which of the two is asked is a matter of style
+    "std::result::Result::<T, E>::is_ok": "is_ok()/is_err()",
+    "std::result::Result::<T, E>::is_err": "is_ok()/is_err()",
     "std::result::Result::<T, E>::unwrap_or": "unwrap_or()",
     "std::result::Result::<T, E>::unwrap_or_else": "unwrap_or_else()",
     "std::result::Result::<T, E>::unwrap_or_default": "unwrap_or_default()",
@@ -72,6 +73,11 @@ def _closure_reads_error(b, f):
 
 
 IO_CAPABLE = ("std::io::Error", "error::Error", "xt::Error", "serde_json::Error", "rmp_serde::decode::Error", "rmp_serde::encode::Error", "serde_yaml::Error", "transcode::stream::Error<")
+
+
+# error types that cannot carry an I/O or parser failure: a Result over them is outside this property
+NON_IO_ERRORS = ("std::str::Utf8Error", "std::string::FromUtf8Error", "std::array::TryFromSliceError", "std::convert::Infallible",
+                 "std::num::TryFromIntError", "std::char::CharTryFromError", "std::char::DecodeUtf16Error", "std::num::ParseIntError", "&'static str", "&str", "()")
 
 
 def _err_type_of(ty):
@@ -143,6 +149,11 @@ def r12_1(ctx):
                 cls = _classify_uses(b, d["l"])
                 good = cls & {"consumed", "inspected", "returned"}
                 ety = _err_type_of(ty)
+                if not good and ety in NON_IO_ERRORS:
+                    k = (crate.kind, b.id, f.get("name", "?"))
+                    seen_ok[k] = seen_ok.get(k, 0) + 1
+                    ctx.ob(f"handled:{crate.kind}:{b.id}:{f.get('name', '?')}:{seen_ok[k] - 1}", True, site(b, bb), f"error type {ety} cannot carry an I/O or parser failure", trivial=True)
+                    continue
                 if good == {"inspected"} and any(ety.startswith(x) for x in IO_CAPABLE) and not _err_payload_used(b, d["l"]):
                     # matched on, but the Err arm never looks at the error: an I/O failure is silently treated like another outcome
                     good = set()
